@@ -13,6 +13,7 @@ import sys
 from vlib import behave, core, flowref, srcpos
 
 ID = "C03"
+READY = True
 LEVEL = "exploration"
 RULE = ("projects from pygen profile 'flow' (self-validated by running them); regions = all contiguous statement "
         "runs of length 1-3 in every block + sampled expression nodes + bad regions, x {method, variable} x option "
